@@ -398,8 +398,9 @@ type ExecOpts struct {
 	Batch    int
 	Race     bool
 	Env      []string
-	WallSecs int // per-batch wall clock watchdog (inconclusive when it fires)
-	UID      int // > 0 (and the driver runs as root): the worker runs as this user and group, not as the owner of the scratch files
+	WallSecs int    // per-batch wall clock watchdog (inconclusive when it fires)
+	Stdout   string // a path the worker's standard output is opened on instead of a scratch file (e.g. /dev/full: every write fails)
+	UID      int    // > 0 (and the driver runs as root): the worker runs as this user and group, not as the owner of the scratch files
 }
 
 // Exec runs items 0..n-1 (produced on demand by gen, which must be a pure function of i)
@@ -517,6 +518,12 @@ func (r *Run) runBatch(k int, lo, hi int, opts ExecOpts, gen func(i int) *Item) 
 		cmd.Env = append(append(os.Environ(), opts.Env...), "VW_REPO_PREFIX="+RepoRoot+"/")
 		ef, _ := os.Create(errPath)
 		sf, _ := os.Create(stdoutPath)
+		if opts.Stdout != "" {
+			if alt, err := os.OpenFile(opts.Stdout, os.O_WRONLY, 0); err == nil {
+				sf.Close()
+				sf = alt
+			}
+		}
 		cmd.Stderr = ef
 		cmd.Stdout = sf
 		cmd.Dir = r.WorkDir
